@@ -277,4 +277,7 @@ def reg : Registry Gen.Fw := Gen.transformerMap.filterMap (fun e => (tr? e.2).ma
 /-- expected data types of the available compute frameworks -/
 def fws : List Gen.Fw := Gen.computeFrameworks.map (·.2)
 
+/-- identity hops: the best possible library (used for witnesses about the glue logic) -/
+def idSem : Sem Gen.Fw := fun _ _ tb => .ok (some tb)
+
 end Transform.Installed
